@@ -58,7 +58,7 @@ def run(ctx):
     for n, d in enumerate(scns):
         d["id"] = n
     inp = ctx.write_ndjson("scenarios.ndjson", scns)
-    obs = ctx.vh("sd", inp, ctx.path("observations.ndjson"), jobs=12, fresh=True, timeout_ms=20000)
+    obs = ctx.vh("sd", inp, ctx.path("observations.ndjson"), jobs=12, fresh=True, timeout_ms=90000)
     ctx.evaluations = len(obs)
     for o in obs:
         if o["scn"]["mode"] == "proto" and interleaved(o["scn"]["steps"]):
